@@ -1468,6 +1468,137 @@ fn run_history(rep: &mut Report, seed: u64, origin: &str) {
 }
 
 // ------------------------------------------------------------------------------------------------
+// Q: histories on one long-lived group, the chunk key CONCRETE (Model/C11ChunkKey.v over C05's Cache.v): the model gets
+// the source characters and the token slices of iter_chunks() (kind interned as 2*id + is_word, spans in document space)
+// and computes hull, chunk characters, relative tokens, key, and what the test pattern rules report itself
+// ------------------------------------------------------------------------------------------------
+const Q_WORDS: &[&str] = &["alpha", "beta", "gamma", "42", "it's", "e-mail", "Beta"];
+fn run_token_history(rep: &mut Report, seed: u64, origin: &str) {
+    use std::sync::atomic::Ordering;
+    rep.eval();
+    let mut r = Rng(seed);
+    let ndocs = r.range(2, 4);
+    let clauses: Vec<String> = (0..r.range(2, 4)).map(|_| (0..r.range(1, 3)).map(|_| r.s(Q_WORDS).to_string()).collect::<Vec<_>>().join(if r.chance(1, 8) { "  " } else { " " })).collect();
+    let dict = harper_core::MutableDictionary::new();
+    let mut texts = vec![];
+    for _ in 0..ndocs {
+        let n = if r.chance(1, 12) { 0 } else { r.range(1, 5) };
+        let mut t = String::new();
+        if r.chance(1, 6) {
+            t.push_str(r.s(&[" ", "\n", ", ", "\u{201c}"]));
+        }
+        for i in 0..n {
+            t.push_str(r.pick(&clauses[..]).as_str());
+            t.push_str(if i + 1 < n { r.s(&[", ", ". ", "; ", ", ", " - ", "\n\n", ": ", ",, ", "! "]) } else { r.s(&["", ".", ",", "\n", "?"]) });
+        }
+        texts.push(t);
+    }
+    let docs: Vec<Document> = texts.iter().map(|t| Document::new_plain_english(t, &dict)).collect();
+    let sources: Vec<Vec<char>> = texts.iter().map(|t| t.chars().collect()).collect();
+    let mut kind_ids: HashMap<String, usize> = HashMap::new();
+    let mut docs_arg: Vec<String> = vec![];
+    let mut doc_tokens: Vec<usize> = vec![];
+    for (di, d) in docs.iter().enumerate() {
+        let src = if sources[di].is_empty() { "-".to_string() } else { sources[di].iter().map(|c| (*c as u32).to_string()).collect::<Vec<_>>().join(".") };
+        let mut chs = vec![];
+        let mut total = 0;
+        for c in d.iter_chunks() {
+            if c.span().is_some() {
+                total += c.len();
+            }
+            let toks: Vec<String> = c
+                .iter()
+                .map(|t| {
+                    let n = kind_ids.len();
+                    let id = *kind_ids.entry(format!("{:?}", t.kind)).or_insert(n);
+                    format!("{}:{}:{}", 2 * id + t.kind.is_word() as usize, t.span.start, t.span.end)
+                })
+                .collect();
+            chs.push(if toks.is_empty() { "-".to_string() } else { toks.join(",") });
+        }
+        doc_tokens.push(total);
+        docs_arg.push(format!("{src} ! {}", if chs.is_empty() { "~".to_string() } else { chs.join("/") }));
+    }
+    let calls = Arc::new(std::sync::atomic::AtomicUsize::new(0));
+    let mut rules: Vec<HRule> = vec![];
+    let mut adds: Vec<String> = vec![];
+    let mut tag_id: HashMap<String, usize> = HashMap::new();
+    let nrules = r.range(2, 6);
+    let names: Vec<String> = (0..nrules).map(|_| r.s(L_NAMES).to_string()).collect();
+    for (id, name) in names.iter().enumerate() {
+        let tag = format!("t{id}");
+        tag_id.insert(tag.clone(), id);
+        let word: Vec<char> = r.s(Q_WORDS).chars().collect();
+        if r.chance(1, 4) {
+            let mut rule = TS { word, tag };
+            let per: Vec<String> = docs.iter().map(|d| lints_arg(&rule.lint(d), id)).collect();
+            adds.push(format!("a {} {}", hex(name.as_bytes()), per.join("|")));
+            rules.push(HRule::S(name.clone(), rule));
+        } else {
+            adds.push(format!("p {} {} {id}", hex(name.as_bytes()), word.iter().map(|c| (*c as u32).to_string()).collect::<Vec<_>>().join(".")));
+            rules.push(HRule::P(name.clone(), TPH { pat: CountPat { word, calls: calls.clone() }, tag, bad: false }));
+        }
+    }
+    let mut g = h_build(&rules);
+    let mut seen: BTreeSet<String> = BTreeSet::new();
+    let mut live_tag: HashMap<String, String> = HashMap::new();
+    for (id, name) in names.iter().enumerate() {
+        if seen.insert(name.clone()) {
+            live_tag.insert(format!("t{id}"), name.clone());
+        }
+    }
+    let mut steps: Vec<String> = vec![];
+    let mut outs: Vec<String> = vec![];
+    let nsteps = r.range(6, 20);
+    let mut lint_steps = 0;
+    let mut hits_seen = false;
+    for si in 0..nsteps {
+        if si < names.len() && r.chance(4, 5) {
+            let name = &names[si];
+            steps.push(format!("g s {} 1", hex(name.as_bytes())));
+            g.config.set_rule_enabled(name, true);
+            continue;
+        }
+        if r.chance(2, 5) {
+            let name = r.pick(&names).clone();
+            if r.chance(3, 4) {
+                let b = r.chance(1, 2);
+                steps.push(format!("g s {} {}", hex(name.as_bytes()), if b { 1 } else { 0 }));
+                g.config.set_rule_enabled(&name, b);
+            } else {
+                steps.push(format!("g u {}", hex(name.as_bytes())));
+                g.config.unset_rule_enabled(&name);
+            }
+            continue;
+        }
+        let di = r.below(ndocs);
+        steps.push(format!("l {di}"));
+        lint_steps += 1;
+        calls.store(0, Ordering::SeqCst);
+        let res = guarded(|| g.lint(&docs[di]));
+        let n_calls = calls.load(Ordering::SeqCst);
+        match &res {
+            Ok(ls) => {
+                let enabled_p = rules.iter().filter(|x| matches!(x, HRule::P(n, t) if live_tag.get(&t.tag) == Some(n) && g.config.is_rule_enabled(n))).count();
+                if n_calls < doc_tokens[di] * enabled_p {
+                    hits_seen = true;
+                }
+                outs.push(format!("{}|{n_calls}", ls.iter().map(|l| format!("{}-{}-{}", l.span.start, l.span.end, tag_id.get(&l.message).copied().unwrap_or(9999))).collect::<Vec<_>>().join(",")));
+            }
+            Err(_) => outs.push("P".into()),
+        }
+    }
+    let _ = origin;
+    let case_line = format!("Q {} # {} # {}", adds.join(" ; "), docs_arg.join(" | "), steps.join(" ; "));
+    rep.case(&case_line, outs.join(" ; ").trim());
+    rep.count(if hits_seen { "token_history:with_cache_hits" } else { "token_history:no_cache_hit" });
+    rep.count(&format!("token_history:kinds_{}", bucket(kind_ids.len())));
+    if hits_seen && lint_steps >= 2 {
+        rep.nontrivial(&case_line);
+    }
+}
+
+// ------------------------------------------------------------------------------------------------
 // search oracle on the curated LintGroup
 // ------------------------------------------------------------------------------------------------
 fn lint_key(l: &Lint) -> String {
@@ -2042,6 +2173,7 @@ fn replay_input(rep: &mut Report, cx: &Ctx, ls: &mut Linters, wasm: &mut Option<
         "hash" => run_hash(rep, &json_map(&v["cfg"])),
         "dispatch" => run_dispatch(rep, v["seed"].as_u64().unwrap_or(0), "replay"),
         "history" => run_history(rep, v["seed"].as_u64().unwrap_or(0), "replay"),
+        "token_history" => run_token_history(rep, v["seed"].as_u64().unwrap_or(0), "replay"),
         "search" => search_case(rep, cx, ls, &Search::from_json(v)),
         // compact form of a complete rule map: curated - absent + stale, `flips` override defaults
         "search_full" => {
@@ -2195,6 +2327,12 @@ fn main() {
             docs += 1;
         }
         rep.extra.insert("all_rules_singly_documents".into(), json!(docs));
+    }
+    // Q: the same with the chunk key concrete (C11_toggle_warm_cache_tokens): the model computes hulls, chunk characters,
+    // relative tokens, keys and the pattern rules' reports from the raw token slices
+    for _ in 0..a.scale(500, 6000) {
+        let s = r.next();
+        run_token_history(&mut rep, s, "random");
     }
     rep.finish();
 }
